@@ -281,12 +281,14 @@ def probe_compile(witness, ctx):
     `interface` against `lib`; signature = first compiler error category."""
     b = build.PybindBuilder()
     try:
-        out = tool.pybind_text(witness['interface'], ('',), witness.get('ignore', []), False, 'm', b.template())
-        lib = cxxlib.VT_CORE + '\n' + witness['lib'] + '\n'
+        out = tool.pybind_text(witness['interface'], ('',), witness.get('ignore', []), witness.get('ser', False), 'm', b.template())
+        lib = '#define VT_FIRST_ENUM_VALUE 11\n' + cxxlib.VT_CORE + '\n' + witness['lib'] + '\n'
         ok, err, _ = b.compile(b.workdir(), {'m.cpp': out}, lib, syntax_only=True)
         if ok:
             return None
-        e = first_errors(err)
+        e = [l for l in first_errors(err) if 'm.cpp' in l]
+        if not e:
+            return 'harness library of the probe does not compile: ' + str(first_errors(err)[:1])[:120]
         m = re.search(r'error: (.*)$', e[0]) if e else None
         return 'does not compile: ' + (re.sub(r"'[^']*'", "'..'", m.group(1))[:80] if m else 'unknown')
     finally:
